@@ -169,7 +169,6 @@ impl Iterator for PartIndexIter<'_> {
                 .copied()
                 .unwrap_or(self.num_points);
             self.current_part_index += 1;
-            debug_assert!(end_of_part_index >= start_of_part_index);
             Some((start_of_part_index, end_of_part_index))
         } else {
             None
@@ -201,6 +200,9 @@ impl<'a, PointType: Default + HasMutXY, R: Read> MultiPartShapeReader<'a, PointT
         bbox_read_xy_from(&mut bbox, source)?;
         let num_parts = source.read_i32::<LittleEndian>()?;
         let num_points = source.read_i32::<LittleEndian>()?;
+        if num_parts < 0 || num_points < 0 {
+            return Err(std::io::Error::from(std::io::ErrorKind::InvalidData));
+        }
         let parts_array = read_parts(source, num_parts)?;
         let parts = Vec::<Vec<PointType>>::new();
         Ok(Self {
@@ -215,6 +217,9 @@ impl<'a, PointType: Default + HasMutXY, R: Read> MultiPartShapeReader<'a, PointT
 
     pub(crate) fn read_xy(mut self) -> std::io::Result<Self> {
         for (start_index, end_index) in PartIndexIter::new(&self.parts_array, self.num_points) {
+            if start_index < 0 || end_index < start_index {
+                return Err(std::io::Error::from(std::io::ErrorKind::InvalidData));
+            }
             let num_points_in_part = end_index - start_index;
             self.parts
                 .push(read_xy_in_vec_of(self.source, num_points_in_part)?);
